@@ -6,8 +6,8 @@ DS_ATTRS = {"title": "demo", "source": ["x"]}
 VAR_ATTRS = {"units": "K"}
 
 OPS = ("take-label", "take-position", "sel", "isel", "ix", "loc", "mean", "sum", "std", "var", "median", "take_axis", "sort_axis",
-       "reindex_axis", "interp_axis", "add-dataset", "sub-dataset-other-labels", "mul-scalar", "rsub-scalar", "stack_ds", "concatenate_ds")
-CARRIES_DS_ATTRS = ("take-label", "take-position", "sel", "isel", "ix", "loc", "take_axis", "sort_axis", "reindex_axis", "interp_axis")
+       "reindex_axis", "reindex_axis-method-right", "interp_axis", "add-dataset", "sub-dataset-other-labels", "mul-scalar", "rsub-scalar", "stack_ds", "concatenate_ds")
+CARRIES_DS_ATTRS = ("take-label", "take-position", "sel", "isel", "ix", "loc", "take_axis", "sort_axis", "reindex_axis", "reindex_axis-method-right", "interp_axis")
 
 
 def _same(np, x, y):
@@ -125,6 +125,9 @@ class DatasetOps(Contract):
         elif op == "reindex_axis":
             out = ds.reindex_axis(new, axis="x")
             for k in has_x: expect[k] = ref[k].reindex_axis(new, axis="x")
+        elif op == "reindex_axis-method-right":
+            out = ds.reindex_axis(new, axis="x", method="right")
+            for k in has_x: expect[k] = ref[k].reindex_axis(new, axis="x", method="right")
         elif op == "interp_axis":
             out = ds.interp_axis(new, axis="x")
             for k in has_x: expect[k] = ref[k].interp_axis(new, axis="x")
